@@ -56,6 +56,18 @@ def run(rng, tier, res=None):
         else:
             D = np.array([[rng.uniform(0.1, 1.0) for _ in range(d)] for _ in range(N)])
             D = D / D.sum(axis=1, keepdims=True)
+        if case % 6 == 4:
+            # sparse count data: exact zeros shared by several samples, with a zero-guarded ratio metric — the value of an
+            # arc must not depend on how many evaluations its end points have been through
+            metric = rng.choice(["canberra", "clark", "divergence", "bray_curtis", "chi_squared", "soergel", "additive_symmetric",
+                                 "vicis_wave_hedges", "squared", "jaccard"])
+            fn = dist.DISTANCES[metric]
+            d = rng.choice([3, 4, 5])
+            D = np.array([[float(rng.choice([0, 0, 0, 1, 2, 5])) for _ in range(d)] for _ in range(N)])
+            for r in range(N):
+                if D[r].sum() == 0:
+                    D[r][rng.randrange(d)] = 1.0
+            res.hit("sparse_zero_data")
         if case % 4 == 3:
             D = D.astype(np.float32)       # single-precision datasets: both routes must evaluate the metric on the SAME values
         Y = np.array([i % 2 for i in range(N)], dtype=int); rng.shuffle(Y)
@@ -71,6 +83,22 @@ def run(rng, tier, res=None):
             G.pre_compute_distance(D, path, metric)
             if D.tobytes() != Db:
                 res.violations.append({"property": "C07", "what": f"pre_compute_distance({metric}) modified the data", "replay": meta})
+                D = np.frombuffer(Db, dtype=D.dtype).reshape(D.shape).copy()
+            # the file holds the metric on every ORDERED pair of rows (18 significant digits: exact round trip)
+            Mf = np.loadtxt(path, delimiter="," if ext == "csv" else None, ndmin=2)
+            bad_entry = None
+            for i_ in range(N):
+                for j_ in range(N):
+                    want_ = float(fn(D[i_].copy(), D[j_].copy()))
+                    if fb(Mf[i_][j_]) != fb(want_) and not (Mf[i_][j_] != Mf[i_][j_] and want_ != want_):
+                        bad_entry = (i_, j_, float(Mf[i_][j_]), want_); break
+                if bad_entry:
+                    break
+            if bad_entry:
+                for pp in ("C10", "C06"):
+                    res.violations.append({"property": pp, "what": f"pre_compute_distance({metric}): file entry [{bad_entry[0]}][{bad_entry[1]}] = "
+                                           f"{bad_entry[2]!r}, the metric on (row {bad_entry[0]}, row {bad_entry[1]}) is {bad_entry[3]!r}", "replay": meta})
+            res.hit("file_entries_checked")
             pct = rng.choice([0.5, 0.6, 0.7]); seed = rng.randint(0, 999)
             X1, X2, Y1, Y2, I1, I2 = splitter.split_with_index(D, Y, pct, seed)
             if len(set(Y1.tolist())) < 2:
@@ -151,6 +179,10 @@ def run(rng, tier, res=None):
                 msgs.append(f"get_distances() of the file-backed {kind} model differs from the metric on its training pairs")
             res.hit("get_distances_sequence")
             viol(msgs, meta)
+            own = {"sup": "C01", "semi": "C15", "unsup": "C13"}[kind]
+            for m_ in [m for m in msgs if "pre-computed vs on-the-fly" in m][:1]:
+                # costs/labels under the SUPPLIED matrix are not those of the metric it was computed from
+                res.violations.append({"property": own, "what": m_, "replay": meta})
         except Exception as ex:
             viol(f"{kind}/{metric}/.{ext}: {type(ex).__name__}: {ex}", meta)
             continue
